@@ -179,11 +179,84 @@ fn security_headers_x(h: &HeaderMap) -> X {
     headers_x(&m)
 }
 
-fn extensions_for(csp: RuleSet<ComputedRule>, server: &str) -> Extensions {
-    let mut ext = Extensions::new();
-    ext.with_csp(csp.arc());
-    ext.with_server_header(server, false, true);
+/// Which `Extensions` the host gets.
+///   base 0: `Extensions::new()` as it is (its own `server` header and default CSP; `adds`/`server` unused);
+///   base 1: `Extensions::new()` + `with_csp(adds)` + `with_server_header(server, platform, override)`;
+///   base 2: `Extensions::empty()` + the extensions selected by `flags`
+///           (1 with_csp, 2 with_no_referrer, 4 with_server_header, 8 with_uri_redirect, 16 with_nonce).
+/// `mount`: `kvarn_extensions::mount_all` on top (Present extensions `cache`, `allow-ips`, `hide`, `download`, ...).
+#[derive(Clone, Copy)]
+struct ExtCfg {
+    base: u128,
+    flags: u128,
+    platform: bool,
+    override_server: bool,
+    mount: bool,
+    /// `c14.conn` only: the requests go over TLS + HTTP/2 (one connection, one stream per request)
+    h2: bool,
+}
+impl ExtCfg {
+    const CLASSIC: ExtCfg = ExtCfg { base: 1, flags: 0, platform: false, override_server: true, mount: false, h2: false };
+    /// (L (N base) (N flags) (N platform) (N override) (N mount) [(N h2)])
+    fn parse(x: Option<&X>) -> Option<ExtCfg> {
+        let x = match x {
+            None => return Some(Self::CLASSIC),
+            Some(x) => x,
+        };
+        match x.as_l()? {
+            [b, f, p, o, m, rest @ ..] if rest.len() <= 1 => Some(ExtCfg {
+                base: b.as_n()?,
+                flags: f.as_n()?,
+                platform: p.as_n()? == 1,
+                override_server: o.as_n()? == 1,
+                mount: m.as_n()? == 1,
+                h2: match rest.first() {
+                    Some(h) => h.as_n()? == 1,
+                    None => false,
+                },
+            }),
+            _ => None,
+        }
+    }
+}
+
+fn extensions_cfg(csp: RuleSet<ComputedRule>, server: &str, c: ExtCfg) -> Extensions {
+    let mut ext = match c.base {
+        0 => Extensions::new(),
+        1 => {
+            let mut ext = Extensions::new();
+            ext.with_csp(csp.arc());
+            ext.with_server_header(server, c.platform, c.override_server);
+            ext
+        }
+        _ => {
+            let mut ext = Extensions::empty();
+            if c.flags & 8 != 0 {
+                ext.with_uri_redirect();
+            }
+            if c.flags & 2 != 0 {
+                ext.with_no_referrer();
+            }
+            if c.flags & 1 != 0 {
+                ext.with_csp(csp.arc());
+            }
+            if c.flags & 4 != 0 {
+                ext.with_server_header(server, c.platform, c.override_server);
+            }
+            if c.flags & 16 != 0 {
+                ext.with_nonce();
+            }
+            ext
+        }
+    };
+    if c.mount {
+        kvarn_extensions::mount_all(&mut ext);
+    }
     ext
+}
+
+fn extensions_for(csp: RuleSet<ComputedRule>, server: &str) -> Extensions {
+    extensions_cfg(csp, server, ExtCfg::CLASSIC)
 }
 
 fn empty_request(path: &str) -> Option<FatRequest> {
@@ -213,8 +286,12 @@ fn package_ids(host: &Host) -> X {
 /// input: (L adds (B path) (L (L (B name) (B value)) ...) (B server)); output: Ok (L priorities headers)
 fn csp_package(x: &X) -> X {
     let l = match x.as_l() {
-        Some(l) if l.len() == 4 => l,
+        Some(l) if l.len() == 4 || l.len() == 5 => l,
         _ => return X::bad(),
+    };
+    let cfg = match ExtCfg::parse(l.get(4)) {
+        Some(c) => c,
+        None => return X::bad(),
     };
     let (path, hs, server) = match (l[1].as_b(), l[2].as_l(), l[3].as_b()) {
         (Some(p), Some(h), Some(s)) => (p, h, s),
@@ -254,7 +331,7 @@ fn csp_package(x: &X) -> X {
         };
         let mut opts = host::Options::default();
         opts.disable_fs();
-        let host = Host::unsecure("localhost", "/nonexistent", extensions_for(csp, server), opts);
+        let host = Host::unsecure("localhost", "/nonexistent", extensions_cfg(csp, server, cfg), opts);
         let rt = runtime();
         rt.block_on(run_package_chain(&host, &mut response, &request));
         X::ok(X::L(vec![package_ids(&host), headers_x(response.headers())]))
@@ -270,8 +347,7 @@ struct Page {
     pref: u128,
 }
 
-fn page_host(csp: RuleSet<ComputedRule>, server: &str, page_path: &str, page: Page) -> Host {
-    let mut ext = extensions_for(csp, server);
+fn add_page(ext: &mut Extensions, page_path: &str, page: Page) {
     let Page { body, count, pref } = page;
     ext.add_prepare_single(
         page_path,
@@ -281,10 +357,23 @@ fn page_host(csp: RuleSet<ComputedRule>, server: &str, page_path: &str, page: Pa
             match *pref {
                 0 => FatResponse::no_cache(r),
                 1 => FatResponse::cache(r),
-                _ => FatResponse::new(r, comprash::ServerCachePreference::QueryMatters),
+                2 => FatResponse::new(r, comprash::ServerCachePreference::QueryMatters),
+                _ => FatResponse::new(r, comprash::ServerCachePreference::MaxAge(Duration::from_secs(3600))),
             }
         }),
     );
+}
+
+/// The CSP rule set of `Extensions::new()` (for the configurations that set one themselves).
+fn csp_default_set() -> RuleSet<ComputedRule> {
+    let mut rs: RuleSet<ComputedRule> = RuleSet::empty();
+    rs.add_mut("/*", CspRule::default());
+    rs
+}
+
+fn page_host(csp: RuleSet<ComputedRule>, server: &str, page_path: &str, page: Page) -> Host {
+    let mut ext = extensions_for(csp, server);
+    add_page(&mut ext, page_path, page);
     let mut opts = host::Options::default();
     opts.disable_fs();
     let mut host = Host::unsecure("localhost", "/nonexistent", ext, opts);
@@ -357,6 +446,101 @@ fn nonce_page(x: &X) -> X {
 }
 
 // -------------------------------------------------------------------------------------------
+// a page with a line of Present directives (`!> nonce &> cache server:full`) through handle_cache
+// -------------------------------------------------------------------------------------------
+/// directives: (L (L (B name) (L (B arg) ...)) ...) -> `!> name arg &> name arg\n`; empty list -> no line
+fn line_text(x: &X) -> Option<Vec<u8>> {
+    let ds = x.as_l()?;
+    let mut out = Vec::new();
+    for (i, d) in ds.iter().enumerate() {
+        let d = d.as_l()?;
+        if d.len() != 2 {
+            return None;
+        }
+        out.extend_from_slice(if i == 0 { b"!> " } else { b" &> " });
+        out.extend_from_slice(d[0].as_b()?);
+        for a in d[1].as_l()? {
+            out.push(b' ');
+            out.extend_from_slice(a.as_b()?);
+        }
+    }
+    if !ds.is_empty() {
+        out.push(b'\n');
+    }
+    Some(out)
+}
+
+/// `(N 0)` no line, `(N 1)` = `!> nonce`, or a list of directives
+fn line_of(x: &X) -> Option<Vec<u8>> {
+    match x {
+        X::N(0) => Some(Vec::new()),
+        X::N(1) => Some(b"!> nonce\n".to_vec()),
+        X::L(_) => line_text(x),
+        _ => None,
+    }
+}
+
+/// input: (L (B body) directives (N pref) (N requests) cfg (B server))   [server: for the model only when cfg.base = 0]
+/// output: Ok (L (L reply ...) (N handler_calls) headers_after_package_chain_of_reply_1)
+///         reply = (L status (L csp-nonce values) body-of-a-200)
+fn nonce_line(x: &X) -> X {
+    let l = match x.as_l() {
+        Some(l) if l.len() == 6 => l,
+        _ => return X::bad(),
+    };
+    let (body, pref, nreq, server) = match (l[0].as_b(), l[2].as_n(), l[3].as_n(), l[5].as_b()) {
+        (Some(b), Some(p), Some(n), Some(s)) => (b, p, n, s),
+        _ => return X::bad(),
+    };
+    let cfg = match ExtCfg::parse(Some(&l[4])) {
+        Some(c) => c,
+        None => return X::bad(),
+    };
+    let server = match utf8(server) {
+        Some(s) if HeaderValue::from_str(s).is_ok() => s.to_owned(),
+        _ => return ood(),
+    };
+    let mut data = match line_text(&l[1]) {
+        Some(d) => d,
+        None => return X::bad(),
+    };
+    data.extend_from_slice(body);
+    if nreq == 0 || nreq > 4096 {
+        return ood();
+    }
+    let count = std::sync::Arc::new(AtomicUsize::new(0));
+    crate::guarded(|| {
+        let mut ext = extensions_cfg(csp_default_set(), &server, cfg);
+        let page = Page { body: Bytes::from(data), count: count.clone(), pref };
+        add_page(&mut ext, "/p", page);
+        let mut opts = host::Options::default();
+        opts.disable_fs();
+        let mut host = Host::unsecure("localhost", "/nonexistent", ext, opts);
+        host.limiter.disable();
+        let addr: SocketAddr = "127.0.0.1:1".parse().unwrap();
+        let rt = runtime();
+        rt.block_on(async {
+            let mut replies = Vec::new();
+            let mut first = None;
+            for _ in 0..nreq {
+                let mut req = empty_request("/p").unwrap();
+                let r = kvarn::handle_cache(&mut req, addr, &host).await;
+                let nonces: Vec<X> = r.response.headers().get_all("csp-nonce").iter().map(|v| X::b(v.as_bytes())).collect();
+                let status = r.response.status().as_u16();
+                let body = if status == 200 { r.response.body().to_vec() } else { Vec::new() };
+                replies.push(X::L(vec![X::n(status), X::L(nonces), X::B(body)]));
+                if first.is_none() {
+                    let (mut head, _) = kvarn_utils::split_response(r.response);
+                    run_package_chain(&host, &mut head, &req).await;
+                    first = Some(security_headers_x(head.headers()));
+                }
+            }
+            X::ok(X::L(vec![X::L(replies), X::n(count.load(Ordering::SeqCst)), first.unwrap()]))
+        })
+    })
+}
+
+// -------------------------------------------------------------------------------------------
 // the send path: kvarn::handle_connection over a loopback TCP pair
 // -------------------------------------------------------------------------------------------
 fn conn_rt() -> &'static tokio::runtime::Runtime {
@@ -383,6 +567,8 @@ struct ConnReq {
     path: Vec<u8>,
     range: u128,
     ims: bool,
+    /// 0 none, 1 gzip, 2 br, 3 zstd (accept-encoding)
+    enc: u128,
 }
 
 struct WireReply {
@@ -391,11 +577,141 @@ struct WireReply {
     body: Vec<u8>,
 }
 
+struct Tls14 {
+    key: Arc<rustls::sign::CertifiedKey>,
+    client_h2: Arc<rustls::ClientConfig>,
+}
+fn tls14() -> &'static Tls14 {
+    static TLS: std::sync::OnceLock<Tls14> = std::sync::OnceLock::new();
+    TLS.get_or_init(|| {
+        use rustls::pki_types::PrivateKeyDer;
+        let provider = Arc::new(rustls::crypto::ring::default_provider());
+        let ss = rcgen::generate_simple_self_signed(vec!["localhost".to_string()]).expect("self-signed certificate");
+        let cert = ss.cert.der().clone();
+        let pk = PrivateKeyDer::Pkcs8(ss.key_pair.serialized_der().to_vec().into());
+        let pk = rustls::crypto::ring::sign::any_supported_type(&pk).expect("key type");
+        let key = Arc::new(rustls::sign::CertifiedKey::new(vec![cert.clone()], pk));
+        let mut roots = rustls::RootCertStore::empty();
+        roots.add(cert).expect("root");
+        let mut c = rustls::ClientConfig::builder_with_provider(provider)
+            .with_safe_default_protocol_versions()
+            .expect("versions")
+            .with_root_certificates(roots)
+            .with_no_client_auth();
+        c.alpn_protocols = vec![b"h2".to_vec()];
+        Tls14 { key, client_h2: Arc::new(c) }
+    })
+}
+
+fn io_err(kind: std::io::ErrorKind, what: impl Into<String>) -> std::io::Error {
+    std::io::Error::new(kind, what.into())
+}
+
 struct ConnClient {
     stream: Option<tokio::net::TcpStream>,
     desc: Arc<PortDescriptor>,
+    h2: Option<h2::client::SendRequest<Bytes>>,
 }
 impl ConnClient {
+    /// One TLS connection with ALPN h2 to `handle_connection`; every request is a stream of it.
+    async fn open_h2(&mut self) -> std::io::Result<()> {
+        use std::io::ErrorKind::{Other, TimedOut};
+        let wait = Duration::from_secs(8);
+        let listener = tokio::net::TcpListener::bind("127.0.0.1:0").await?;
+        let addr = listener.local_addr()?;
+        let client = tokio::net::TcpStream::connect(addr).await?;
+        let (server_end, peer) = listener.accept().await?;
+        let desc = self.desc.clone();
+        tokio::spawn(async move {
+            let _ = kvarn::handle_connection(kvarn::Incoming::Tcp(server_end), peer, desc, || true).await;
+        });
+        let name = rustls::pki_types::ServerName::try_from("localhost").unwrap();
+        let tls = tokio::time::timeout(wait, tokio_rustls::TlsConnector::from(tls14().client_h2.clone()).connect(name, client))
+            .await
+            .map_err(|_| io_err(TimedOut, "TLS handshake"))??;
+        if tls.get_ref().1.alpn_protocol() != Some(b"h2") {
+            return Err(io_err(Other, "ALPN h2 not negotiated"));
+        }
+        let (send, conn) = tokio::time::timeout(wait, h2::client::Builder::new().handshake::<_, Bytes>(tls))
+            .await
+            .map_err(|_| io_err(TimedOut, "h2 handshake"))?
+            .map_err(|e| io_err(Other, format!("h2 handshake: {e}")))?;
+        tokio::spawn(async move {
+            let _ = conn.await;
+        });
+        self.h2 = Some(send);
+        Ok(())
+    }
+    async fn exchange_h2(&mut self, r: &ConnReq) -> std::io::Result<Option<WireReply>> {
+        use std::io::ErrorKind::{InvalidInput, Other, TimedOut};
+        let wait = Duration::from_secs(8);
+        if self.h2.is_none() {
+            self.open_h2().await?;
+        }
+        let mut uri = b"https://localhost:8443".to_vec();
+        uri.extend_from_slice(&r.path);
+        let method = match r.method {
+            0 => Method::GET,
+            1 => Method::HEAD,
+            _ => Method::POST,
+        };
+        let mut b = Request::builder()
+            .method(method)
+            .uri(Uri::try_from(&uri[..]).map_err(|e| io_err(InvalidInput, e.to_string()))?);
+        match r.range {
+            0 => {}
+            1 => b = b.header("range", "bytes=0-3"),
+            _ => b = b.header("range", "bytes=2000-2999"),
+        }
+        if r.ims {
+            b = b.header("if-modified-since", "Fri, 01 Jan 2100 00:00:00 GMT");
+        }
+        match r.enc {
+            0 => {}
+            1 => b = b.header("accept-encoding", "gzip"),
+            2 => b = b.header("accept-encoding", "br"),
+            _ => b = b.header("accept-encoding", "zstd"),
+        }
+        let req = b.body(()).map_err(|e| io_err(InvalidInput, e.to_string()))?;
+        let send = self.h2.clone().unwrap();
+        let mut send = tokio::time::timeout(wait, send.ready())
+            .await
+            .map_err(|_| io_err(TimedOut, "h2 ready"))?
+            .map_err(|e| io_err(Other, format!("h2 ready: {e}")))?;
+        let (resp, _stream) = send.send_request(req, true).map_err(|e| io_err(Other, format!("h2 send_request: {e}")))?;
+        let resp = match tokio::time::timeout(wait, resp).await {
+            Err(_) => return Err(io_err(TimedOut, "no h2 response head")),
+            // the stream was reset / the connection went away without an answer: what a panic in the pipeline looks like
+            Ok(Err(e)) if e.is_reset() || e.is_go_away() || e.is_io() => return Ok(None),
+            Ok(Err(e)) => return Err(io_err(Other, format!("h2 response: {e}"))),
+            Ok(Ok(resp)) => resp,
+        };
+        let (parts, mut body) = resp.into_parts();
+        let mut data = Vec::new();
+        loop {
+            match tokio::time::timeout(wait, body.data()).await {
+                Err(_) => return Err(io_err(TimedOut, "no h2 response body")),
+                Ok(None) => break,
+                Ok(Some(Err(e))) => return Err(io_err(Other, format!("h2 body: {e}"))),
+                Ok(Some(Ok(chunk))) => {
+                    let _ = body.flow_control().release_capacity(chunk.len());
+                    data.extend_from_slice(&chunk);
+                }
+            }
+        }
+        let headers: Vec<(Vec<u8>, Vec<u8>)> =
+            parts.headers.iter().map(|(n, v)| (n.as_str().as_bytes().to_vec(), v.as_bytes().to_vec())).collect();
+        let enc = headers.iter().find(|(k, _)| k == b"content-encoding").map(|(_, v)| v.clone());
+        let body = match enc {
+            Some(enc) if !data.is_empty() => match crate::c00pipe::decode_body(Some(&enc[..]), &data) {
+                (b, true) => b,
+                (_, false) => b"<body does not decode with its content-encoding>".to_vec(),
+            },
+            _ => data,
+        };
+        Ok(Some(WireReply { status: parts.status.as_u16(), headers, body }))
+    }
+
     async fn connect(&mut self) -> std::io::Result<()> {
         let listener = tokio::net::TcpListener::bind("127.0.0.1:0").await?;
         let addr = listener.local_addr()?;
@@ -433,6 +749,12 @@ impl ConnClient {
         }
         if r.ims {
             req.extend_from_slice(b"If-Modified-Since: Fri, 01 Jan 2100 00:00:00 GMT\r\n");
+        }
+        match r.enc {
+            0 => {}
+            1 => req.extend_from_slice(b"Accept-Encoding: gzip\r\n"),
+            2 => req.extend_from_slice(b"Accept-Encoding: br\r\n"),
+            _ => req.extend_from_slice(b"Accept-Encoding: zstd\r\n"),
         }
         if r.method >= 2 {
             req.extend_from_slice(b"Content-Length: 0\r\n");
@@ -502,6 +824,13 @@ impl ConnClient {
             buf.extend_from_slice(&tmp[..n]);
         }
         let body = buf[head_end..head_end + want].to_vec();
+        let body = match get(b"content-encoding") {
+            Some(enc) if has_body && !body.is_empty() => match crate::c00pipe::decode_body(Some(&enc[..]), &body) {
+                (b, true) => b,
+                (_, false) => b"<body does not decode with its content-encoding>".to_vec(),
+            },
+            _ => body,
+        };
         if close || buf.len() > head_end + want {
             // start the next request on a fresh connection
             self.stream = None;
@@ -516,7 +845,11 @@ impl ConnClient {
 /// output: Ok (L (L (N status) security-headers body-of-a-200/206-GET) ...)
 fn conn(x: &X) -> X {
     let l = match x.as_l() {
-        Some(l) if l.len() == 4 => l,
+        Some(l) if l.len() == 4 || l.len() == 5 => l,
+        _ => return X::bad(),
+    };
+    let cfg = match ExtCfg::parse(l.get(4)) {
+        Some(c) if c.base <= 1 => c,
         _ => return X::bad(),
     };
     let server = match l[1].as_b().map(utf8) {
@@ -525,16 +858,22 @@ fn conn(x: &X) -> X {
         None => return X::bad(),
     };
     let mut handlers = Vec::new();
+    let mut files: Vec<(String, Vec<u8>)> = Vec::new();
     for h in match l[2].as_l() { Some(h) => h, None => return X::bad() } {
         let h = match h.as_l() {
-            Some(h) if h.len() == 6 => h,
+            Some(h) if h.len() == 6 || h.len() == 7 => h,
             _ => return X::bad(),
         };
-        let (path, status, hs, cache, nonce, body) =
-            match (h[0].as_b(), h[1].as_n(), h[2].as_l(), h[3].as_n(), h[4].as_n(), h[5].as_b()) {
+        let (path, status, hs, cache, line, body) =
+            match (h[0].as_b(), h[1].as_n(), h[2].as_l(), h[3].as_n(), line_of(&h[4]), h[5].as_b()) {
                 (Some(p), Some(st), Some(hs), Some(c), Some(n), Some(b)) => (p, st, hs, c, n, b),
                 _ => return X::bad(),
             };
+        let fs = match h.get(6).map(X::as_n) {
+            None => false,
+            Some(Some(f)) => f == 1,
+            Some(None) => return X::bad(),
+        };
         let path = match utf8(path) {
             Some(p) => p.to_owned(),
             None => return ood(),
@@ -555,34 +894,65 @@ fn conn(x: &X) -> X {
                 _ => return X::bad(),
             }
         }
-        let mut data = Vec::new();
-        if nonce == 1 {
-            data.extend_from_slice(b"!> nonce\n");
-        }
+        let mut data = line;
         data.extend_from_slice(body);
-        handlers.push(ConnHandler { path, status: status as u16, headers, cache: cache == 1, body: Bytes::from(data) });
+        if fs {
+            // a file `public/<path>`: plain relative paths only
+            if !path.starts_with('/') || path.ends_with('/') || path.contains("..") || path.contains("//") || path.contains('\0') {
+                return ood();
+            }
+            files.push((path, data));
+        } else {
+            handlers.push(ConnHandler { path, status: status as u16, headers, cache: cache == 1, body: Bytes::from(data) });
+        }
     }
     let mut reqs = Vec::new();
     for r in match l[3].as_l() { Some(r) => r, None => return X::bad() } {
         match r.as_l() {
-            Some([m, p, rg, i]) => match (m.as_n(), p.as_b(), rg.as_n(), i.as_n()) {
+            Some([m, p, rg, i, rest @ ..]) if rest.len() <= 1 => match (m.as_n(), p.as_b(), rg.as_n(), i.as_n()) {
                 (Some(m), Some(p), Some(rg), Some(i)) => {
                     if !p.starts_with(b"/") || p.iter().any(|c| !c.is_ascii_graphic()) {
                         return ood();
                     }
-                    reqs.push(ConnReq { method: m, path: p.to_vec(), range: rg, ims: i == 1 })
+                    let enc = match rest.first().map(X::as_n) {
+                        None => 0,
+                        Some(Some(e)) => e,
+                        Some(None) => return X::bad(),
+                    };
+                    reqs.push(ConnReq { method: m, path: p.to_vec(), range: rg, ims: i == 1, enc })
                 }
                 _ => return X::bad(),
             },
             _ => return X::bad(),
         }
     }
+    // fixture directory (only when the case has files): unique per process and case
+    let dir = if files.is_empty() {
+        None
+    } else {
+        static N: AtomicUsize = AtomicUsize::new(0);
+        let d = std::path::PathBuf::from(format!(
+            "{}/.run/c14-{}-{}",
+            env!("CARGO_MANIFEST_DIR").trim_end_matches("/harness"),
+            std::process::id(),
+            N.fetch_add(1, Ordering::SeqCst)
+        ));
+        for (rel, data) in &files {
+            let full = d.join("public").join(rel.trim_start_matches('/'));
+            let ok = full.parent().map_or(false, |p| std::fs::create_dir_all(p).is_ok()) && std::fs::write(&full, data).is_ok();
+            if !ok {
+                let _ = std::fs::remove_dir_all(&d);
+                return X::L(vec![X::N(93), X::b("fixture directory")]);
+            }
+        }
+        Some(d)
+    };
     let built = crate::guarded(|| {
         let csp = match csp_set(&l[0]) {
             Some(c) => c,
             None => return X::bad(),
         };
-        let mut ext = extensions_for(csp, &server);
+        let mut ext = extensions_cfg(csp, &server, cfg);
         for h in handlers {
             let path = h.path.clone();
             let h = Arc::new(h);
@@ -603,22 +973,35 @@ fn conn(x: &X) -> X {
             );
         }
         let mut opts = host::Options::default();
-        opts.disable_fs();
-        let mut host = Host::unsecure("localhost", "/nonexistent", ext, opts);
+        let host_path = match &dir {
+            Some(d) => d.to_string_lossy().into_owned(),
+            None => {
+                opts.disable_fs();
+                "/nonexistent".to_owned()
+            }
+        };
+        let mut host = Host::unsecure("localhost", host_path, ext, opts);
         host.limiter.disable();
+        if cfg.h2 {
+            *host.certificate.write().unwrap() = Some(tls14().key.clone());
+        }
         CONN_COLL.with(|c| *c.borrow_mut() = Some(HostCollection::builder().insert(host).build()));
         X::N(0)
     });
     if built != X::N(0) {
+        if let Some(d) = &dir {
+            let _ = std::fs::remove_dir_all(d);
+        }
         return built;
     }
     let coll = CONN_COLL.with(|c| c.borrow_mut().take().unwrap());
-    let desc = Arc::new(PortDescriptor::unsecure(8080, coll));
+    let desc = Arc::new(if cfg.h2 { PortDescriptor::new(8443, coll) } else { PortDescriptor::unsecure(8080, coll) });
     let out = conn_rt().block_on(async move {
-        let mut client = ConnClient { stream: None, desc };
+        let mut client = ConnClient { stream: None, desc, h2: None };
         let mut out = Vec::new();
         for r in &reqs {
-            match client.exchange(r).await {
+            let answer = if cfg.h2 { client.exchange_h2(r).await } else { client.exchange(r).await };
+            match answer {
                 Err(e) => return Err(X::L(vec![X::N(93), X::b(format!("{:?}", e.kind()))])),
                 // the connection was closed without an answer: what a panic in the pipeline looks like
                 Ok(None) => return Err(X::panic()),
@@ -642,6 +1025,9 @@ fn conn(x: &X) -> X {
         }
         Ok(out)
     });
+    if let Some(d) = &dir {
+        let _ = std::fs::remove_dir_all(d);
+    }
     match out {
         Ok(v) => X::ok(X::L(v)),
         Err(e) => e,
@@ -656,6 +1042,7 @@ pub fn dispatch(comp: &str, x: &X) -> Option<X> {
         "ruleset.get" => ruleset_get(x),
         "csp.package" => csp_package(x),
         "nonce.page" => nonce_page(x),
+        "nonce.line" => nonce_line(x),
         "c14.conn" => conn(x),
         _ => return None,
     })
